@@ -296,6 +296,54 @@ fn handle(line: &str, have_cfg: bool) -> String {
             .to_string()
                 + if errs.is_empty() { " " } else { "" }
         }
+        ["collect", rest @ ..] => {
+            use fastpasta::stats::stats_collector::StatsCollector;
+            let mute = rest.first() == Some(&"mute=1");
+            let mut sc = StatsCollector::default();
+            sc.collect(StatType::SystemId(fastpasta::stats::SystemId::ITS));
+            for t in &rest[1..] {
+                let p: Vec<&str> = t.split(':').collect();
+                let n = |i: usize| p[i].parse::<u64>().unwrap_or(0);
+                match p[0] {
+                    "e" => sc.collect(StatType::Error(format!("{:#X}: [{}] tag={}", n(1), p[2], p[3]).into())),
+                    "l" => sc.collect(StatType::LinksObserved(n(1) as u8)),
+                    "f" => sc.collect(StatType::FeeId(n(1) as u16)),
+                    "s" => sc.collect(StatType::LayerStaveSeen { layer: n(1) as u8, stave: n(2) as u8 }),
+                    "t" => sc.collect(StatType::TriggerType(n(1) as u32)),
+                    "h" => sc.collect(StatType::HBFsSeen(n(1) as u32)),
+                    "r" => sc.collect(StatType::RDHSeen(n(1) as u32)),
+                    "p" => sc.collect(StatType::PayloadSize(n(1) as u32)),
+                    _ => return "bad-op".into(),
+                }
+            }
+            sc.finalize(mute);
+            let errs: Vec<String> = sc
+                .error_stats()
+                .errors_as_slice_iter()
+                .map(|m| {
+                    let c = canon_error(m);
+                    let parts: Vec<&str> = c.split(':').collect();
+                    let tag = m.split("tag=").nth(1).unwrap_or("");
+                    format!("{}:{}:{}", parts[0], parts[1], tag)
+                })
+                .collect();
+            let r = sc.rdh_stats();
+            let t = r.trigger_stats();
+            let trig = [t.orbit(), t.hb(), t.hbr(), t.hc(), t.pht(), t.pp(), t.cal(), t.sot(), t.eot(), t.soc(), t.eoc(), t.tf(), t.fe_rst(), t.rt(), t.rs(), t.lhc_gap1(), t.lhc_gap2(), t.tpc_sync(), t.tpc_rst(), t.tof()];
+            format!(
+                "errors={} links={} fees={} staves={} trig={} hbfs={} seen={} payload={} total={} codes={}",
+                errs.join(","),
+                r.links_as_slice().iter().map(|x| x.to_string()).collect::<Vec<_>>().join(","),
+                r.fee_ids_as_slice().iter().map(|x| x.to_string()).collect::<Vec<_>>().join(","),
+                r.layer_staves_as_slice().iter().map(|(a, b)| format!("{a}/{b}")).collect::<Vec<_>>().join(","),
+                trig.iter().map(|x| x.to_string()).collect::<Vec<_>>().join(","),
+                sc.hbfs_seen(),
+                sc.rdhs_seen(),
+                sc.payload_size(),
+                sc.err_count(),
+                sc.unique_error_codes_as_slice().iter().map(|c| format!("E{c}")).collect::<Vec<_>>().join(",")
+            )
+        }
         ["scan", rest @ ..] => {
             let mut filter = "-".to_string();
             let mut skip = false;
